@@ -571,6 +571,17 @@ class TaskScenario(ScenarioData):
                     successors = self._getSuccessors()
                     for successor in successors:
                         succ_start = successor.get("start", self.scenarioIdx)
+                        if succ_start:
+                            # Honour the gap requested on the successor's dependency:
+                            # this task must end that much before the successor starts.
+                            for dep in successor.get("depends", self.scenarioIdx) or []:
+                                if isinstance(dep, dict) and dep.get("task") is self.property:
+                                    if dep.get("gapduration") and not dep.get("onstart"):
+                                        from datetime import timedelta
+
+                                        gap_hours = self._parse_duration(dep.get("gapduration"))
+                                        succ_start = succ_start - timedelta(hours=gap_hours)
+                                    break
                         if succ_start and succ_start < latest_end:
                             latest_end = succ_start
 
